@@ -10,12 +10,16 @@ EXTENDS Naturals, Sequences, FiniteSets, TLC, Json, SequencesExt
 Obs == ndJsonDeserialize("obs.ndjson")
 Cancelled(o) == o.kind \in {"ptrace-cancel", "envA-cancel", "unshare-cancel"}
 FileOps(o) == o.kind \in {"envA-ops", "envB-ops"}
-VerdictOK(o) == IF FileOps(o) THEN o.r = "ok"
+\* an environment of its own destroyed while its Open is in flight: that call reports the loss (C11); the point
+\* here is what the OTHER runs of the round and of the following rounds see -- nothing
+OpenLoss(o) == o.kind = "envX-openloss"
+VerdictOK(o) == IF OpenLoss(o) THEN o.r = "err"
+                ELSE IF FileOps(o) THEN o.r = "ok"
                 ELSE IF Cancelled(o) THEN o.r = "verdict" /\ o.status = 2
                 ELSE o.r = "verdict" /\ o.status = 7 /\ o.code = o.want
 \* a cancelled program may be killed before it has written anything
-TableOK(o)  == o.fds = <<"0:null", "1:null", "2:null", "3:own">> \/ ((Cancelled(o) \/ FileOps(o)) /\ o.fds = <<>>)
-EffectOK(o) == o.marker = o.expmarker \/ (Cancelled(o) /\ o.marker = "")
+TableOK(o)  == o.fds = <<"0:null", "1:null", "2:null", "3:own">> \/ ((Cancelled(o) \/ FileOps(o) \/ OpenLoss(o)) /\ o.fds = <<>>)
+EffectOK(o) == o.marker = o.expmarker \/ ((Cancelled(o) \/ OpenLoss(o)) /\ o.marker = "")
 \* no run receives another run's trap events: the handler of a traced run is only shown its own paths
 TrapsOK(o)  == o.foreign = 0 /\ (o.kind = "ptracet" => o.traps > 0)
 Judge(o) == VerdictOK(o) /\ TableOK(o) /\ EffectOK(o) /\ TrapsOK(o)
